@@ -68,6 +68,11 @@ enum ModuleStatus {
         ancestor_index: usize,
     },
     PreLinked {
+        // Kept until the whole cycle is linked: a link error in another module of the
+        // cycle sends this module back to `Unlinked`.
+        #[unsafe_ignore_trace]
+        source: boa_ast::Module,
+        source_text: SourceText,
         environment: Gc<DeclarativeEnvironment>,
         context: SourceTextContext,
         ancestor_index: usize,
@@ -842,8 +847,15 @@ impl SourceTextModule {
             for m in stack.iter().filter_map(|cmr| cmr.kind().as_source_text()) {
                 // i. Assert: m.[[Status]] is linking.
                 // ii. Set m.[[Status]] to unlinked.
+                // NOTE: a module whose environment is already initialized but whose cycle is
+                // not linked yet (`PreLinked`) is still "linking" in the specification's terms.
                 m.status.borrow_mut().transition(|status| match status {
                     ModuleStatus::Linking {
+                        source,
+                        source_text,
+                        ..
+                    }
+                    | ModuleStatus::PreLinked {
                         source,
                         source_text,
                         ..
@@ -1004,6 +1016,7 @@ impl SourceTextModule {
                             ancestor_index: info,
                             context,
                             environment,
+                            ..
                         } => ModuleStatus::Linked {
                             ancestor_index: info,
                             context,
@@ -1944,7 +1957,13 @@ impl SourceTextModule {
 
         // 16. Set module.[[Context]] to moduleContext.
         self.status.borrow_mut().transition(|state| match state {
-            ModuleStatus::Linking { ancestor_index, .. } => ModuleStatus::PreLinked {
+            ModuleStatus::Linking {
+                ancestor_index,
+                source,
+                source_text,
+            } => ModuleStatus::PreLinked {
+                source,
+                source_text,
                 environment: env,
                 ancestor_index,
                 context: SourceTextContext {
